@@ -141,16 +141,23 @@ func NewEmu(cfg Config) (*Emu, error) {
 	}
 	if cfg.FunctionName == "" {
 		cfg.FunctionName = "test_function"
+	} else if cfg.FunctionName == "-" {
+		cfg.FunctionName = "" // explicitly empty
 	}
 	if cfg.FunctionVersion == "" {
 		cfg.FunctionVersion = "$LATEST"
+	} else if cfg.FunctionVersion == "-" {
+		cfg.FunctionVersion = ""
 	}
 	if cfg.BootstrapCmd == nil {
 		cfg.BootstrapCmd = []string{"/var/runtime/bootstrap"}
 	}
 	l := NewLog()
 	port := cfg.Port
-	if port == 0 {
+	osAssigned := false
+	if port == -1 {
+		port, osAssigned = 0, true // "port 0": the OS picks the port
+	} else if port == 0 {
 		var err error
 		if port, err = allocPort(); err != nil {
 			return nil, err
@@ -200,7 +207,7 @@ func NewEmu(cfg Config) (*Emu, error) {
 	e.API = sb.LambdaInvokeAPI()
 	// wait for the API server to listen
 	deadline := time.Now().Add(5 * time.Second)
-	for {
+	for !osAssigned {
 		c, err := net.DialTimeout("tcp", e.Addr, 200*time.Millisecond)
 		if err == nil {
 			c.Close()
@@ -210,6 +217,9 @@ func NewEmu(cfg Config) (*Emu, error) {
 			return nil, fmt.Errorf("harness: runtime API did not come up on %s", e.Addr)
 		}
 		time.Sleep(300 * time.Microsecond)
+	}
+	if osAssigned {
+		time.Sleep(50 * time.Millisecond)
 	}
 	return e, nil
 }
